@@ -169,6 +169,11 @@ func (tr *Tr) execInstr(fr *Frame, in ssa.Instruction, st *State) {
 		pt := x.X.Type().Underlying().(*types.Pointer).Elem()
 		stt := pt.Underlying().(*types.Struct)
 		base := tr.val(fr, x.X)
+		if lv, ok := base.(LocV); ok && lv.L.Kind == LElem {
+			f := stt.Field(x.Field)
+			fr.vals[x] = LocV{L: Loc{Kind: LElem, Prefix: lv.L.Prefix + "." + f.Name(), Ref: lv.L.Ref, Idx: lv.L.Idx}, Typ: f.Type()}
+			return
+		}
 		ref := tr.asRef(base)
 		if _, isAlloc := x.X.(*ssa.Alloc); !isAlloc {
 			if _, isLoc := base.(LocV); !isLoc {
@@ -566,7 +571,7 @@ func (tr *Tr) initMap(st *State, ref string, mt *types.Map) {
 }
 
 func (tr *Tr) nilMapFacts(st *State, mt *types.Map, m string) {
-	if isLiteral(m) && m != "0" {
+	if isLiteral(m) && m != "0" || strings.Contains(m, "?") {
 		return
 	}
 	key := "nilmap:" + m + tr.mapDom(st, mt) + tr.mapLen(st, mt)
